@@ -400,6 +400,7 @@ type run struct {
 	offsetsAtKill         []string
 	passed                map[passKey]bool
 	rereadSameIncarnation bool
+	truncUnnoticed        bool // the reader did not look at a truncated file within ten minutes
 }
 
 const logDir = "/data/logs"
@@ -487,6 +488,7 @@ func (r *run) writer() {
 				continue
 			}
 			r.fs.TruncateDirect(p)
+			readsAtTrunc := r.fs.ReadCount[ino]
 			r.sizes[ino] = 0
 			r.truncations++
 			streamsOfFile := map[string]bool{}
@@ -518,15 +520,35 @@ func (r *run) writer() {
 			// ... and really has noticed: with a slow pipeline the single worker may be kept from the file for
 			// longer than that. A reader that has not looked at the file between the truncation and the moment the
 			// file has grown past its old position again cannot know about the truncation, whatever it does.
-			for waited := time.Duration(0); waited < 60*time.Second; waited += 200 * time.Millisecond {
+			// (VerifReadOffset includes the position of the job's descriptor: a worker parked in Pipeline.In in the
+			// middle of a pass has read ahead of what the job records.) A pipeline that commits one event per
+			// flush interval can keep the worker away for minutes: wait as long as it takes within ten simulated
+			// minutes; a reader that never comes back at all is C04's business, not a line lost after a truncation.
+			noticed := false
+			lookedAt := time.Duration(-1)
+			for waited := time.Duration(0); waited < 10*time.Minute; waited += 200 * time.Millisecond {
 				off, has := int64(0), false
 				if n := len(r.plugins); n > 0 {
 					off, has = file.VerifReadOffset(r.plugins[n-1].(*file.Plugin), ino)
 				}
 				if !has || off == 0 {
+					noticed = true
+					break
+				}
+				// the reader has issued a read on the (now empty) file since the truncation: it has had its look;
+				// if it does not start over within the next seconds it never will, and what follows is its fault
+				if lookedAt < 0 && r.fs.ReadCount[ino] > readsAtTrunc {
+					lookedAt = simrt.SimNow()
+				}
+				if lookedAt >= 0 && simrt.SimNow()-lookedAt > 3*time.Second {
+					noticed = true
+					r.o.Probes["truncation-seen-by-a-read-but-position-not-reset"]++
 					break
 				}
 				simrt.Sleep(200 * time.Millisecond)
+			}
+			if !noticed {
+				r.truncUnnoticed = true
 			}
 		case "rotate":
 			if r.pend[op.File] != nil {
@@ -843,6 +865,12 @@ func (r *run) evaluate() {
 		}
 	}
 	if len(missing) == 0 {
+		return
+	}
+	if r.truncUnnoticed {
+		// the oracle's precondition (the file does not grow past the reader's old position before the reader has
+		// looked at it) could not be established
+		r.o.Inconclusive = "reader kept away from a truncated file for ten minutes"
 		return
 	}
 	l := missing[0]
